@@ -440,6 +440,8 @@ class Array:
                 token_length = dtype2.bitlength
         if token_length is None:
             token_length = self.itemsize
+        if token_length == 0:
+            raise ValueError(f"A format with a non-zero length is needed for Array.pp(), received '{fmt}'.")
 
         trailing_bit_length = len(self.data) % token_length
         format_sep = " : "  # String to insert on each line between multiple formats
